@@ -345,8 +345,27 @@ def oracle(job: dict, res: dict, ref: dict, per: dict, traces: dict, match: dict
         if norm_file(fi[2], sfile) == '<script>':
             (user_codes if fi[0] == user else other_codes).setdefault(fi[1], []).append((fi[4], fi[5] if len(fi) > 5 else 10 ** 9))
 
+    # With module tracing on, code GENERATED by the standard library is compiled under the file name '<string>' too
+    # (dataclass-made __init__/__eq__/..., e.g. of nextline's own event classes, run on the traced thread's stack), and
+    # its function names and line numbers can coincide with a method of the user's script given as source text or code
+    # object.  Such a frame is told apart by its CALLER: under module tracing its call event is prompted right after a
+    # prompt in the calling frame; if that one is not in the user's file the frame is not the user's.
+    GENERATED = {'__init__', '__repr__', '__eq__', '__lt__', '__le__', '__gt__', '__ge__', '__hash__', '__setattr__', '__delattr__',
+                 '__getstate__', '__setstate__', '__replace__'}
+    lib_frames = set()
+    if tm:
+        for d0 in traces.values():
+            prev = None
+            for q in d0['prompts']:
+                if q['event'] == 'call' and q['file'] == '<string>' and q['func'] in GENERATED and prev is not None \
+                        and not is_user_file(prev['file']):
+                    lib_frames.add(q['frame'])
+                prev = q
+
     def is_user_prompt(p):
         if not is_user_file(p['file']):
+            return False
+        if p.get('frame') in lib_frames:
             return False
         if not p['func']:
             return True
